@@ -72,7 +72,7 @@ func MmapStor(filename string, mode Mode) (*Stor, error) {
 	if mode == Read {
 		remainder := size % mmapChunkSize
 		if remainder > 0 {
-			chunks[last] = chunks[last][:remainder] // last chunk not full
+			chunks[last] = chunks[last][:remainder:remainder] // last chunk not full
 		}
 	}
 	// ignore trailing zero bytes (from memory mapping, if truncate failed)
